@@ -245,11 +245,16 @@ func (e *Engine) registerSyncExterns(reg regFn) {
 			st.note("Range: done")
 			return one(st, Val{})
 		}, "gh:$visited")
-	reg("sync.(*Once).Do", "sync.Once.Do(f): runs f if it has not run before (both cases explored)", func(x *Exec, st *State, fr *frame, c *ssa.CallCommon, args []Val, pos token.Pos) []callOut {
+	reg("sync.(*Once).Do", "sync.Once.Do(f): runs f iff it has not run before (ghost oncedone); both cases explored", func(x *Exec, st *State, fr *frame, c *ssa.CallCommon, args []Val, pos token.Pos) []callOut {
+		k := st.name("once", "Int", x.e.objKey(st, args[0]))
+		g := st.ghost("oncedone")
 		s2 := st.clone()
 		s2.note("Once.Do: already done")
+		s2.assumePC(s2.ghostRead(g, k))
 		outs := []callOut{{st: s2, val: Val{}}}
 		st.note("Once.Do: first call")
+		st.assumePC(not(st.ghostRead(g, k)))
+		st.ghostWrite(g, k, "true")
 		f := args[1]
 		if f.Clo != nil {
 			for _, o := range x.callFunc(st, fr, f.Clo.Fn, f.Clo.Bindings, nil, c, pos) {
@@ -260,5 +265,5 @@ func (e *Engine) registerSyncExterns(reg regFn) {
 			outs = append(outs, callOut{st: st, val: Val{}})
 		}
 		return outs
-	})
+	}, "gh:oncedone")
 }
